@@ -13,6 +13,7 @@
  *              sfail=<indices of FAILED schema ops that changed the dictionary, or ->
  *              warn=<"not freed from the dictionary" warnings during ly_ctx_destroy> eint=<"Internal error" messages>
  *              onn=<ops that failed but left a non-NULL output> integ=<broken node links seen by the integrity walk>
+ *              left=<failed subtree parses that left parsed (explicit) nodes in the parent>
  *              lost=<(leaf-)list instances their own sibling lookup does not find> live=<slots alive before the final free>
  *              heap=<1 when the byte balance of the heap differs from that of an empty history>
  *              leak=<VP_LEAKCHECK(), run when heap=1 or forced> leakat=<innermost 3 frames of the first leak's allocation, or ->
@@ -228,7 +229,7 @@ static struct lyd_node *slot[NSLOT];
 static struct lyd_node *ghost[MAXGHOST];
 static int nghost;
 static long base_rec, base_ref;
-static int n_warn, n_eint, n_onn, n_integ, n_lost, n_mid;
+static int n_warn, n_eint, n_onn, n_integ, n_lost, n_mid, n_left;
 static int debug;       /* VERIF_LIFE_DEBUG=1: log messages and op trace on stderr, =2: also every slot after every op */
 
 static void
@@ -811,11 +812,16 @@ do_op(const struct op *o, int idx)
         char *doc = A_s(o, 6, NULL);
         int notree = (o->n > 7) && A_i(o, 7);
         struct ly_in *in = NULL;
+        struct lyd_node *ch;
+        long before = 0, after = 0;
 
         if (!doc || !is_inner(par)) return -1;
         if (ly_in_new_memory(doc, &in)) return -1;
+        LY_LIST_FOR(lyd_child(par), ch) before += !(ch->flags & LYD_DEFAULT);
         rc = lyd_parse_data(ctx, par, in, fmt ? LYD_JSON : LYD_XML, popts, vopts, notree ? NULL : &first);
         ly_in_free(in, 0);
+        LY_LIST_FOR(lyd_child(par), ch) after += !(ch->flags & LYD_DEFAULT);
+        if (rc && (after > before)) n_left++;     /* a failed call frees what it parsed (explicit nodes; default ones may stay) */
         OUT_CHECK(rc, first);
         if (!rc && first && (lyd_parent(first) != par)) n_onn++;     /* documented: the first parsed child */
         slot[s] = home(par);
@@ -1636,7 +1642,7 @@ run_history(const char *id, int set, uint32_t ctxopts, char *script)
 
     memset(slot, 0, sizeof slot);
     nghost = 0;
-    n_warn = n_eint = n_onn = n_integ = n_lost = n_mid = n_sfail = 0;
+    n_warn = n_eint = n_onn = n_integ = n_lost = n_mid = n_left = n_sfail = 0;
 
     for (p = strtok_r(script, ";", &save1); p && (nops < MAXOPS); p = strtok_r(NULL, ";", &save1)) {
         struct op *o = &ops[nops++];
@@ -1706,7 +1712,7 @@ run_history(const char *id, int set, uint32_t ctxopts, char *script)
         fprintf(stdout, "%s%d", i ? "," : "", sfail_idx[i]);
     }
     if (!n_sfail) fputs("-", stdout);
-    fprintf(stdout, " warn=%d eint=%d onn=%d integ=%d lost=%d live=%d heap=%d leak=%d leakat=%s", n_warn, n_eint, n_onn, n_integ, n_lost, live, heap, leak ? 1 : 0, leakat);
+    fprintf(stdout, " warn=%d eint=%d onn=%d integ=%d lost=%d left=%d live=%d heap=%d leak=%d leakat=%s", n_warn, n_eint, n_onn, n_integ, n_lost, n_left, live, heap, leak ? 1 : 0, leakat);
     vp_end();
 }
 
